@@ -48,7 +48,9 @@ CONSTANTS
   Weak_NewValidBlockIgnored,              \* Receive: NewValidBlockMessage no longer applied to the peer state
   Weak_InitMarksPartsHad,                 \* InitProposalBlockParts: the fresh bit array is all ones
   Weak_VoteMarkedBeforeRoundCheck,        \* ApplyNewRoundStepMessage: Prevotes/Precommits survive a round change
-  AllowedGaps                             \* the named gaps (GapClass below) that are exempt from GossipComplete
+  AllowedGaps,                            \* the named gaps (GapClass below) that are exempt from GossipComplete
+  Code_POLShadowedByCatchupRound          \* TRUE = the tree as it is: getVoteBitArray returns nil for prevotes of CatchupCommitRound
+                                          \* before it looks at ProposalPOLRound (gap G6); FALSE = with proposed-fixes/GOSSIP-pol-shadowed.diff
 
 CN == INSTANCE TMConsensusNode
 
@@ -159,7 +161,7 @@ NewPRS == [h |-> 0, r |-> -1, step |-> 0, proposal |-> FALSE,
 VBAField(p, h, r, t) ==
   IF p.h = h THEN
        IF p.r = r THEN (IF t = Prevote THEN "pv" ELSE "pc")
-       ELSE IF p.ccR = r THEN (IF t = Prevote THEN "none" ELSE "cc")
+       ELSE IF p.ccR = r /\ (t = Precommit \/ Code_POLShadowedByCatchupRound) THEN (IF t = Prevote THEN "none" ELSE "cc")
        ELSE IF p.polR = r THEN (IF t = Prevote THEN "pol" ELSE "none")
        ELSE "none"
   ELSE IF p.h = h + 1 THEN (IF p.lcR = r /\ t = Precommit THEN "lc" ELSE "none")
